@@ -160,6 +160,9 @@ structure Env where
   shrink1 : V → V → V
   /-- `np.nextafter(0.7 * min(max_ok_t, max_time), -inf)` as a function of `max_ok_t`, `max_time` -/
   shrink2 : V → V → V
+  /-- `np.nextafter(x, inf)`: the next float above (only used to state `EnvOk`: scipy evaluates the
+  last stage of a step at `t + (t_bound - t)`, which can round to one ulp above `t_bound`) -/
+  nextUp : Rat → Rat
 
 /-- `dense.t_min <= t <= dense.t_max` -/
 def Seg.has (d : Seg) (t : Rat) : Bool := decide (d.1 ≤ t) && decide (t ≤ d.2)
@@ -395,9 +398,10 @@ behaviour; every clause is either checked on each recorded run by the harness or
 * `np.linspace(0, T, steps)` has `steps` entries, starts at 0, increases strictly, stays `≤ T`;
 * in every cycle the integrator stops (leaves "running" or hits an out-of-range evaluation) —
   termination of scipy's inner stepping is *not* proved;
-* the integrator evaluates the right-hand side only at times `≤ t_bound`; `nextafter(t,-inf) < t`;
-* `nextafter(min(b, …), -inf) < b` for finite `b` and `nextafter(0.7·min(a, T), -inf) < T` for
-  `T > 0` and non-NaN `a` (both results finite or `-inf`). -/
+* the integrator evaluates the right-hand side only at times `≤ nextUp t_bound` (observed: the last
+  stage `t + (t_bound - t)` is sometimes one ulp above `t_bound`); `nextafter(t,-inf) < t`;
+* `nextafter(min(b, …), -inf) < b` for finite `b`, and a float below `nextUp T` is `≤ T`;
+  `nextafter(0.7·min(a, T), -inf) < T` for `T > 0` and non-NaN `a` (results finite or `-inf`). -/
 structure EnvOk (e : Env) : Prop where
   steps_pos : 0 < e.steps
   dense_len : ∀ c j t, (e.dense c j t).length = e.start.length
@@ -407,9 +411,11 @@ structure EnvOk (e : Env) : Prop where
   grid_inc : ∀ m, 0 < m → (e.grid m).Pairwise (· < ·)
   grid_le : ∀ m, 0 < m → ∀ t ∈ e.grid m, t ≤ m
   integ_stops : ∀ c m, (collect (e.integ c m).steps (FSt.init.evals (e.integ c m).pre) []).isSome = true
-  evals_le : ∀ c m, ∀ ev ∈ allEvals (e.integ c m), ev.t ≤ m
+  up_ge : ∀ m, m ≤ e.nextUp m
+  evals_le : ∀ c m, ∀ ev ∈ allEvals (e.integ c m), ev.t ≤ e.nextUp m
   evals_prev : ∀ c m, ∀ ev ∈ allEvals (e.integ c m), ev.tPrev < ev.t
   shrink1_lt : ∀ a q, (e.shrink1 a (.fin q)).lt (.fin q) = true
+  shrink1_up : ∀ a q m, q ≤ e.nextUp m → (e.shrink1 a (.fin q)).le (.fin m) = true
   shrink2_lt : ∀ a m, a ≠ .nan → 0 < m → (e.shrink2 a (.fin m)).lt (.fin m) = true
 
 /-! ## parameters accepted by `System.__init__` (system.py) -/
